@@ -2,6 +2,7 @@
 
 from __future__ import annotations
 
+from collections import defaultdict
 from dataclasses import dataclass
 from typing import TYPE_CHECKING
 from typing import DefaultDict
@@ -55,22 +56,36 @@ class ExtendsNode(Node):
 
     def render_to_output(self, context: RenderContext, buffer: TextIO) -> int:
         """Render the node to the output buffer."""
-        base_template = _build_block_stacks(context, context.template, "extends")
+        # This chain gets block stacks of its own. If we are here because a template
+        # that is part of another chain included us, that chain's stacks are left alone.
+        stacks = context.tag_namespace["extends"]
+        context.tag_namespace["extends"] = defaultdict(list)
 
-        base_template.render_with_context(context, buffer)
-        context.tag_namespace["extends"].clear()
+        try:
+            base_template = _build_block_stacks(context, context.template, "extends")
+            base_template.render_with_context(context, buffer)
+        finally:
+            context.tag_namespace["extends"] = stacks
+
         raise StopRender
 
     async def render_to_output_async(
         self, context: RenderContext, buffer: TextIO
     ) -> int:
         """Render the node to the output buffer."""
-        base_template = await _build_block_stacks_async(
-            context, context.template, "extends"
-        )
+        # This chain gets block stacks of its own. If we are here because a template
+        # that is part of another chain included us, that chain's stacks are left alone.
+        stacks = context.tag_namespace["extends"]
+        context.tag_namespace["extends"] = defaultdict(list)
 
-        await base_template.render_with_context_async(context, buffer)
-        context.tag_namespace["extends"].clear()
+        try:
+            base_template = await _build_block_stacks_async(
+                context, context.template, "extends"
+            )
+            await base_template.render_with_context_async(context, buffer)
+        finally:
+            context.tag_namespace["extends"] = stacks
+
         raise StopRender
 
     def children(
